@@ -582,4 +582,35 @@ theorem takeK_len : ∀ (k fuel : Nat) (ss : List Stage) (w : World),
     | err e => simp at h
     | fuel => simp at h
 
+theorem takeK_ops : ∀ (k fuel : Nat) (ss : List Stage) (w : World),
+    (takeK fuel k ss w).2.2.1.map Stage.op = ss.map Stage.op := by
+  intro k
+  induction k with
+  | zero => intro fuel ss w; simp [takeK]
+  | succ k ih =>
+    intro fuel ss w
+    rcases h1 : next fuel ss w with ⟨r, ss', w'⟩
+    have hops := next_ops fuel ss w
+    rw [h1] at hops
+    simp only at hops
+    simp only [takeK, h1]
+    cases r with
+    | val v => simp only; rw [ih, hops]
+    | done => exact hops
+    | err e => exact hops
+    | fuel => exact hops
+
+theorem map_op_init (ops : List Op) : ops.map (Stage.op ∘ Stage.init) = ops := by
+  induction ops with
+  | nil => rfl
+  | cons op ops ih => simp [Stage.init, ih]
+
+theorem rebuild_eq (ops : List Op) (ss : List Stage) (h : ss.map Stage.op = (build ops).map Stage.op) :
+    rebuild ss = build ops := by
+  have e1 : rebuild ss = (ss.map Stage.op).map Stage.init := by simp [rebuild]
+  have e2 : (build ops).map Stage.op = ops.reverse := by
+    simp only [build, List.map_reverse, List.map_map, map_op_init]
+  rw [e1, h, e2]
+  simp [build]
+
 end Pipeline
